@@ -13,7 +13,14 @@ Tie.  Three kinds of cases:
   names   MultiHash entry points with an arbitrary list of names (subsets of ALGORITHMS,
           "length", duplicates, unknown names) and an arbitrary declared length (real,
           None, wrong)
-  script  operation sequences on a store of hashers: new / update / copy / digest
+  script  operation sequences on a store of hashers: new / update / copy / digest, including 2-3
+          hashers with different names and contents whose update() calls are interleaved, chunks
+          optionally passed through one reused caller-side bytearray / memoryview
+  overlap two or three complete computations that OVERLAP in one process: a re-entrant stream
+          (read / readinto of the outer stream runs other hashutil computations before returning
+          its block), nested re-entrant streams, and one thread per computation with a token
+          handed round-robin inside every read()/readinto() so that the blocks of the
+          computations strictly alternate (deterministic, no sleeps, bounded waits)
 and the same through the extracted model.  The model is run with the FREE hash
 oracle Hsym (its "digest" is  algo ":" bytes-fed); the harness applies hashlib to
 what the model says was fed, so hashlib is the oracle H on both sides - which is
@@ -34,6 +41,7 @@ import shutil
 import subprocess
 import sys
 import tempfile
+import time
 
 from .core import exc_class, hx, unhx
 
@@ -51,8 +59,21 @@ RULE = ("lengths {0,1,2} + {k*32768+d | k in 0..3, d in -2..2} + random <= 100 k
         "block multiples, whole, none-then-whole; readers: BytesIO, real temporary file, short-reading file object "
         "following a random schedule (never empty before EOF); name lists: sampled (quick) / all 2^8 (thorough) subsets "
         "of ALGORITHMS + 'length', in random order, with duplicates, plus unknown names and missing/wrong length; "
-        "scripts new/update*/copy/update* on both/digest both.  non-trivial = data >= 1 byte and (>= 2 chunks or an "
-        "entry point other than MultiHash.from_data), scripts: >= 1 copy and >= 1 byte fed; distinct = distinct case")
+        "scripts new/update*/copy/update* on both/digest both, and scripts with 2-3 hashers (own names, lengths, contents) "
+        "whose updates are interleaved (strictly alternating or random), copies taken mid-stream, chunks optionally passed "
+        "through one reused and overwritten caller-side bytearray/memoryview.  OVERLAP cases (interference between two "
+        "computations is not excused by the property): 2-3 parts of pairwise different lengths (1 byte .. 100 kB, around "
+        "block multiples), each with its own entry point (from_file on a stream offering read only / read+readinto / a raw "
+        "io.RawIOBase with readinto only / io.BufferedReader over it, with or without short reads; from_data, from_path, "
+        "chunked update, hash_git_data, model.Content.from_data, from_disk.Content.from_bytes/from_file) and names; modes: "
+        "re-entrant (every k-th read()/readinto() of the outer stream runs complete computations of the other parts, before "
+        "and/or after its block has been produced), nested (part i's stream runs part i+1 whose stream runs part i+2), threads "
+        "(one thread per part, a token handed round-robin inside every read()/readinto() so that blocks strictly alternate; "
+        "non-stream parts run whole in one turn; no sleeps, every wait bounded, a time-out is reported as Deadlock); every "
+        "execution (outer, each inner repetition, each thread) must give the digests/length of its own bytes and agree with the "
+        "model's plain run of that part.  non-trivial = data >= 1 byte and (>= 2 chunks or an entry point other than "
+        "MultiHash.from_data), scripts: >= 1 byte fed and (>= 1 copy or >= 2 hashers), overlap: >= 2 non-empty parts; "
+        "distinct = distinct case")
 TRUSTED = ["hashlib objects behave as 'bytes fed so far' (update appends, digest is a function of the bytes fed, copy() "
            "is independent) - the modelling convention of DESIGN.md section 3",
            "file objects honour the reader contract (non-empty prefixes of the remaining bytes, at most the requested "
@@ -64,7 +85,13 @@ ASSUMPTIONS = ["the length declared to MultiHash(length=) is the real length on 
                "C01_wrong_length_example); declared lengths are >= 0",
                "hashlib accepts the base algorithm of every member of ALGORITHMS (checked at run time: pre_checks)",
                "CoreSWHID's 20-byte validation of the object id is not modelled (H is uninterpreted); the printed "
-               "SWHID is compared as text"]
+               "SWHID is compared as text",
+               "the model is a pure function of the bytes of ONE computation (a MultiHash cell shares nothing with another "
+               "cell: C01_chunking's frame clause, C01_copy_independent); that the implementation has no state shared between "
+               "two computations (module-level buffers, caches of hashlib objects, ...) is not a theorem about the code but is "
+               "checked by the overlap cases: interference is exactly a deviation of an overlapped execution from the model's "
+               "plain run.  Overlaps explored: same-thread re-entrancy at read()/readinto() boundaries and token-passing threads "
+               "switching at those boundaries; preemption at arbitrary bytecode boundaries (free-running threads) is not explored"]
 
 BLOCK = 32768
 MULTIHASH_ROUTES = ("fd", "ff", "ffr", "ffs", "fp", "fpl", "ch")
@@ -301,13 +328,22 @@ def impl_routes(c):
 def impl_script(c):
     from swh.model.hashutil import MultiHash
     vs, evs = [], []
+    scratch = bytearray(64)
     for op in c["ops"]:
         try:
             if op[0] == "n":
                 vs.append(MultiHash(hash_names=list(op[1]), length=op[2]))
                 evs.append("done")
             elif op[0] == "u":
-                vs[op[1]].update(bytes.fromhex(op[2]))
+                ch = bytes.fromhex(op[2])
+                if c.get("buf"):          # the caller reuses ONE buffer for every chunk of every hasher (legal: update copies)
+                    if len(scratch) < len(ch):
+                        scratch.extend(bytes(len(ch) - len(scratch)))
+                    scratch[:len(ch)] = ch
+                    vs[op[1]].update(memoryview(scratch)[:len(ch)] if c["buf"] == "view" else scratch[:len(ch)])
+                    scratch[:len(ch)] = b"\xa5" * len(ch)
+                else:
+                    vs[op[1]].update(ch)
                 evs.append("done")
             elif op[0] == "c":
                 vs.append(vs[op[1]].copy())
@@ -320,9 +356,235 @@ def impl_script(c):
     return {"events": evs}
 
 
+# ---- overlapping computations: re-entrant streams, alternating threads --------------------------
+class Deadlock(Exception):
+    pass
+
+
+class _Stream:
+    """Short-reading stream over data with a hook called before the block is produced and after it
+    has been produced (readinto: after it has been written into the caller's buffer), i.e. just
+    before returning.  What the hook does (run another hashing / hand over to another thread) is
+    the overlap."""
+
+    def __init__(self, data, sched, hook):
+        self._d, self._pos, self._sched, self._k, self._hook = data, 0, list(sched or []), 0, hook
+
+    def _take(self, n):
+        want = n
+        if self._k < len(self._sched):
+            want = min(self._sched[self._k] + 1, n)
+        self._k += 1
+        out = self._d[self._pos:self._pos + want]
+        self._pos += len(out)
+        return out
+
+    def _read(self, n):
+        if n is None or n < 0:
+            n = len(self._d)
+        self._hook("before")
+        out = self._take(n)
+        self._hook("after")
+        return out
+
+    def _readinto(self, b):
+        self._hook("before")
+        out = self._take(len(b))
+        b[:len(out)] = out
+        self._hook("after")
+        return len(out)
+
+
+class ReadStream(_Stream):                 # read() only
+    def read(self, n=-1):
+        return self._read(n)
+
+
+class BothStream(_Stream):                 # read() and readinto(), a plain object
+    def read(self, n=-1):
+        return self._read(n)
+
+    def readinto(self, b):
+        return self._readinto(b)
+
+
+class RawStream(io.RawIOBase):             # a raw stream (pipe/socket like): readinto() only, read() inherited
+    def __init__(self, data, sched, hook):
+        super().__init__()
+        self._s = _Stream(data, sched, hook)
+
+    def readable(self):
+        return True
+
+    def readinto(self, b):
+        return self._s._readinto(b)
+
+
+def make_stream(kind, data, sched, hook):
+    if kind == "read":
+        return ReadStream(data, sched, hook)
+    if kind == "both":
+        return BothStream(data, sched, hook)
+    if kind == "raw":
+        return RawStream(data, sched, hook)
+    if kind == "buffered":                 # io.BufferedReader over the raw stream
+        return io.BufferedReader(RawStream(data, sched, hook), buffer_size=rng_free_bufsize(len(data)))
+    raise ValueError(kind)
+
+
+def rng_free_bufsize(n):
+    return 4096 if n % 2 else 65536        # deterministic in the case, no PRNG at run time
+
+
+def part_names(part):
+    from swh.model import hashutil
+    names = part.get("names")
+    return list(hashutil.DEFAULT_ALGORITHMS) + ["length"] if names is None else list(names)
+
+
+def run_part(part, idx, hook):
+    """one complete computation of one part through its entry point; result in the shape of impl_routes"""
+    from swh.model import from_disk, hashutil, model
+    MH = hashutil.MultiHash
+    data = data_of(part["data"])
+    names = part_names(part)
+    code = part["route"]
+    if code == "ff":
+        return guard(lambda: mh_res(MH.from_file(make_stream(part.get("stream", "both"), data, part.get("sched"), hook),
+                                                 hash_names=names, length=len(data)).digest()))
+    if code == "fd":
+        return guard(lambda: mh_res(MH.from_data(data, hash_names=names).digest()))
+    if code == "fp":
+        return guard(lambda: mh_res(MH.from_path(os.path.join(tmpdir(), "ov%d" % idx), hash_names=names).digest()))
+    if code == "ch":
+        def chunked():
+            h = MH(hash_names=names, length=len(data))
+            for ch in chunks_of(data, part.get("cuts", [])):
+                h.update(ch)
+            return mh_res(h.digest())
+        return guard(chunked)
+    if code == "hg":
+        return guard(lambda: {"length": None, "d": {"sha1_git": hashutil.hash_git_data(data, "blob").hex()}})
+    if code == "mc":
+        def mc():
+            o = model.Content.from_data(data)
+            return content_res(lambda k: getattr(o, k), o.length)
+        return guard(mc)
+    if code == "db":
+        def db():
+            o = from_disk.Content.from_bytes(mode=0o100644, data=data)
+            return content_res(lambda k: o.data[k], o.data["length"])
+        return guard(db)
+    if code == "df":
+        def df():
+            o = from_disk.Content.from_file(path=os.path.join(tmpdir(), "ov%d" % idx).encode())
+            return content_res(lambda k: o.data[k], o.data["length"],
+                               {"absent": "01" if o.data["status"] == "absent" else "00"})
+        return guard(df)
+    raise ValueError(code)
+
+
+MAX_INNER = 16
+
+
+def impl_overlap(c):
+    import threading
+    parts = c["parts"]
+    for k, p in enumerate(parts):
+        if p["route"] in ("fp", "df"):
+            write_tmp(data_of(p["data"]), "ov%d" % k)
+    res = {"p%d" % k: [] for k in range(len(parts))}
+    when = c.get("when", "after")
+    every = max(1, c.get("every", 1))
+    nohook = lambda phase: None
+    if c["mode"] == "reentrant":
+        # the outer stream (part 0) runs, inside its read()/readinto(), complete computations of the other parts in rotation
+        state = {"calls": 0, "runs": 0}
+
+        def hook(phase):
+            if phase == "before":
+                state["calls"] += 1
+            if (when == phase or when == "both") and (state["calls"] - 1) % every == 0 and state["runs"] < MAX_INNER:
+                k = 1 + state["runs"] % (len(parts) - 1)
+                state["runs"] += 1
+                res["p%d" % k].append(run_part(parts[k], k, nohook))
+        res["p0"].append(run_part(parts[0], 0, hook))
+    elif c["mode"] == "nested":
+        # part k's stream runs part k+1 (whose stream runs part k+2 ...) inside its first two calls
+        def hook_for(k):
+            state = {"calls": 0}
+
+            def hook(phase):
+                if phase == "before":
+                    state["calls"] += 1
+                if (when == phase or when == "both") and state["calls"] <= 2 and k + 1 < len(parts):
+                    res["p%d" % (k + 1)].append(run_part(parts[k + 1], k + 1, hook_for(k + 1)))
+            return hook
+        res["p0"].append(run_part(parts[0], 0, hook_for(0)))
+    elif c["mode"] == "threads":
+        # one thread per part; a token is passed round-robin: a stream part hands over inside each read()/readinto()
+        # (so the blocks of the computations strictly alternate), a non-stream part runs whole in one turn.  No sleeps;
+        # every wait is bounded and a time-out is reported as Deadlock.
+        n = len(parts)
+        cv = threading.Condition()
+        st = {"cur": 0, "live": [True] * n, "broken": False}
+        WAIT = 10
+
+        def advance(frm):
+            for d in range(1, n + 1):
+                j = (frm + d) % n
+                if st["live"][j]:
+                    st["cur"] = j
+                    return
+            st["cur"] = None
+
+        def wait_turn(me):
+            if not cv.wait_for(lambda: st["cur"] == me or st["broken"], WAIT) or st["broken"]:
+                st["broken"] = True
+                cv.notify_all()
+                raise Deadlock()
+
+        def worker(me):
+            def hook(phase):
+                if when == phase or when == "both":
+                    with cv:
+                        advance(me)
+                        cv.notify_all()
+                        wait_turn(me)
+            try:
+                with cv:
+                    wait_turn(me)
+                r = run_part(parts[me], me, hook)
+            except Exception as e:
+                r = {"error": exc_class(e)}
+            finally:
+                with cv:
+                    st["live"][me] = False
+                    if st["cur"] == me:
+                        advance(me)
+                    cv.notify_all()
+            res["p%d" % me].append(r)
+        ths = [threading.Thread(target=worker, args=(k,), daemon=True) for k in range(n)]
+        for t in ths:
+            t.start()
+        deadline = time.monotonic() + 2 * WAIT + 5
+        for k, t in enumerate(ths):
+            t.join(max(0.0, deadline - time.monotonic()))
+            if t.is_alive():
+                with cv:
+                    st["broken"] = True
+                    cv.notify_all()
+                res["p%d" % k].append({"error": "Other(Deadlock)"})
+    else:
+        raise ValueError(c["mode"])
+    return res
+
+
 def impl(c):
     if c["kind"] == "script":
         return impl_script(c)
+    if c["kind"] == "overlap":
+        return impl_overlap(c)
     return impl_routes(c)
 
 
@@ -349,6 +611,21 @@ def requests(c):
             else:
                 ops.append("%s:%d" % (op[0], op[1]))
         return ["script sym new " + ("/".join(ops) if ops else "~")]
+    if c["kind"] == "overlap":
+        # the model is a pure function of each part's bytes: one plain run per part is the reference for every
+        # (outer, inner, concurrent) execution of that part
+        reqs = []
+        for p in c["parts"]:
+            data = data_of(p["data"])
+            names = p.get("names")
+            if names is None:
+                from swh.model.hashutil import DEFAULT_ALGORITHMS
+                names = ["length"] + sorted(DEFAULT_ALGORITHMS)
+            chunks = chunks_of(data, p.get("cuts", [])) if p["route"] == "ch" else ([data] if data else [])
+            ctok = "|".join(hx(ch) for ch in chunks) if chunks else "~"
+            sched = ",".join(map(str, p["sched"])) if p.get("sched") and p["route"] == "ff" else "~"
+            reqs.append("run sym %s %s %d %s %s -" % (p["route"], enc_names(names), len(data), ctok, sched))
+        return reqs
     data = data_of(c["data"])
     names = c.get("names")
     if names is None:
@@ -413,6 +690,8 @@ def model(c, resp):
                 ln, vals = parse_dict(e[2:])
                 evs.append({"length": ln, "v": vals})
         return {"events": evs}
+    if c["kind"] == "overlap":
+        return {"parts": [parse_run(r) for r in resp]}
     out = {"sym": parse_run(resp[0])}
     k = 1
     if c.get("sched"):
@@ -498,6 +777,17 @@ def compare(c, ires, mres):
             if why:
                 return why
         return None
+    if c["kind"] == "overlap":
+        for k, p in enumerate(c["parts"]):
+            m = mres["parts"][k]
+            if "model_failure" in m:
+                return "model failed: " + m["model_failure"][:200]
+            for j, i in enumerate(ires["p%d" % k]):
+                why = cmp_route("%s of part %d (execution %d, %s)" % (p["route"], k, j, c["mode"]), m[p["route"]], i,
+                                data_of(p["data"]))
+                if why:
+                    return why
+        return None
     if "model_failure" in mres["sym"]:
         return "model failed: " + mres["sym"]["model_failure"][:200]
     data = data_of(c["data"])
@@ -529,9 +819,29 @@ def known_algo(a):
     return a in ALGORITHMS
 
 
+def oracle_overlap(c, ires):
+    """interference-freedom: whatever else is being hashed inside or alongside, every execution of every part gives the
+    digests / length of its own bytes"""
+    for k, p in enumerate(c["parts"]):
+        data = data_of(p["data"])
+        rs = ires["p%d" % k]
+        if k == 0 and not rs or c["mode"] == "threads" and len(rs) != 1:
+            return "part %d was executed %d times" % (k, len(rs))
+        for j, r in enumerate(rs):
+            why = oracle({"kind": "names" if p.get("names") is not None else "routes", "data": p["data"],
+                          "names": p.get("names"), "cuts": p.get("cuts", [])}, {p["route"]: r}, None)
+            if why:
+                return "%s mode, part %d (%d bytes, %s), execution %d, while %d other computation(s) overlap: %s" % (
+                    c["mode"], k, len(data), "stream " + p.get("stream", "both") if p["route"] == "ff" else "plain",
+                    j, len(c["parts"]) - 1, why)
+    return None
+
+
 def oracle(c, ires, mres):
     if c["kind"] == "script":
         return oracle_script(c, ires)
+    if c["kind"] == "overlap":
+        return oracle_overlap(c, ires)
     data = data_of(c["data"])
     n = len(data)
     if c.get("length", "real") != "real" and c["length"] != n:
@@ -806,6 +1116,77 @@ def gen(rng, tier):
                 nv += 1
             ops += [["d", v] for v in range(nv)]
         cases.append({"kind": "script", "ops": ops})
+    # interleaved incremental use: 2-3 hashers with their own names / lengths / contents, update() calls interleaved,
+    # copies taken in between, chunks optionally handed over through ONE caller-side buffer that is reused and scribbled on
+    for k in range(40 if quick else 700):
+        nh = rng.choice([2, 2, 3])
+        ops, streams = [], []
+        for v in range(nh):
+            names = [a for a in universe if rng.random() < 0.35][:4] or [rng.choice(universe)]
+            rng.shuffle(names)
+            chunks = [rng.randbytes(rng.choice([0, 1, 2, 64, 200, 2047, 2048, 3000])) for _ in range(rng.randrange(1, 6))]
+            ops.append(["n", names, sum(map(len, chunks))])
+            streams.append([(v, ch) for ch in chunks])
+        nv = nh
+        while any(streams):
+            if k % 2 == 0:                                  # strict alternation
+                order = [v for v in range(len(streams)) if streams[v]]
+            else:
+                order = [rng.choice([v for v in range(len(streams)) if streams[v]])]
+            for v in order:
+                if rng.random() < 0.2 and nv < 6:
+                    ops.append(["c", streams[v][0][0]])     # copy mid-stream: the copy receives the same remaining chunks
+                    streams.append([(nv, ch) for _, ch in streams[v]])
+                    nv += 1
+                var, ch = streams[v].pop(0)
+                ops.append(["u", var, ch.hex()])
+        ops += [["d", v] for v in range(nv)]
+        c = {"kind": "script", "ops": ops}
+        b = rng.choice([None, "view", "slice"])
+        if b:
+            c["buf"] = b
+        cases.append(c)
+    cases += gen_overlap(rng, quick, universe)
+    return cases
+
+
+def gen_part(rng, n, universe, force_stream=False):
+    route = "ff" if force_stream else rng.choice(["ff", "ff", "ff", "fd", "fp", "ch", "mc", "db", "df", "hg"])
+    part = {"data": gen_data(rng, n, rng.choice(["rand", "rand", "zero", "ff", "text"])), "route": route}
+    if route == "ff":
+        part["stream"] = rng.choice(["both", "raw", "both", "raw", "read", "buffered"])
+        if rng.random() < 0.35:
+            part["sched"] = gen_sched(rng, n)
+    if route == "ch":
+        part["cuts"] = gen_cuts(rng, n, rng.choice(["random", "around-blocks", "empties"]))
+    if route in ("ff", "fd", "fp", "ch") and rng.random() < 0.3:
+        names = [a for a in universe if rng.random() < 0.5] or ["sha256"]
+        rng.shuffle(names)
+        part["names"] = names
+    return part
+
+
+def gen_overlap(rng, quick, universe):
+    """two or more hashing computations that OVERLAP in one process"""
+    cases = []
+    big = [BLOCK - 1, BLOCK, BLOCK + 1, 2 * BLOCK, 2 * BLOCK + 17, 3 * BLOCK + 2, 76800, 100000]
+    modes = ["reentrant", "threads", "reentrant", "threads", "nested", "threads"]
+    for k in range(42 if quick else 900):
+        mode = modes[k % len(modes)]
+        nparts = rng.choice([2, 2, 3]) if mode != "nested" else rng.choice([2, 3])
+        sizes = []
+        while len(sizes) < nparts:
+            n = rng.choice(big) if rng.random() < (0.45 if quick else 0.6) else rng.choice([1, 2, 17, 300, 2047, 2048, 5000, rng.randrange(1, 9000)])
+            if n not in sizes:                              # different contents of different lengths
+                sizes.append(n)
+        parts = []
+        for j, n in enumerate(sizes):
+            force = j == 0 or mode == "nested" and j < nparts - 1 or mode == "threads" and rng.random() < 0.5
+            parts.append(gen_part(rng, n, universe, force_stream=force))
+        c = {"kind": "overlap", "mode": mode, "parts": parts, "when": rng.choice(["after", "after", "after", "both", "before"])}
+        if mode == "reentrant" and rng.random() < 0.3:
+            c["every"] = 2
+        cases.append(c)
     return cases
 
 
@@ -813,15 +1194,36 @@ def gen(rng, tier):
 def nontrivial(c):
     if c["kind"] == "script":
         fed = sum(len(op[2]) // 2 for op in c["ops"] if op[0] == "u")
-        return fed >= 1 and any(op[0] == "c" for op in c["ops"])
+        return fed >= 1 and (any(op[0] == "c" for op in c["ops"]) or sum(1 for op in c["ops"] if op[0] == "n") >= 2)
+    if c["kind"] == "overlap":
+        return len(c["parts"]) >= 2 and all(len(data_of(p["data"])) >= 1 for p in c["parts"])
     n = len(data_of(c["data"]))
     return n >= 1
+
+
+def case_bytes(c):
+    if c["kind"] == "script":
+        return sum(len(op[2]) // 2 for op in c["ops"] if op[0] == "u")
+    if c["kind"] == "overlap":
+        return sum(len(data_of(p["data"])) for p in c["parts"])
+    return len(data_of(c["data"]))
 
 
 def classify(c):
     ks = ["kind=" + c["kind"]]
     if c["kind"] == "script":
         ks.append("copies=%d" % min(3, sum(1 for op in c["ops"] if op[0] == "c")))
+        if sum(1 for op in c["ops"] if op[0] == "n") >= 2:
+            ks.append("interleaved-hashers")
+        if c.get("buf"):
+            ks.append("reused-caller-buffer")
+        return ks
+    if c["kind"] == "overlap":
+        ks += ["overlap=" + c["mode"], "overlap-when=" + c.get("when", "after"), "overlap-parts=%d" % len(c["parts"])]
+        for p in c["parts"]:
+            ks.append("overlap-part=" + (p["route"] if p["route"] != "ff" else "stream-" + p.get("stream", "both")))
+        if any(len(data_of(p["data"])) > BLOCK for p in c["parts"]):
+            ks.append("overlap-multi-block")
         return ks
     n = len(data_of(c["data"]))
     if n <= 2:
@@ -860,13 +1262,36 @@ def shrink(c):
         ops = c["ops"]
         for k in range(len(ops) - 1, 0, -1):
             if ops[k][0] in ("u", "d"):
-                yield {"kind": "script", "ops": ops[:k] + ops[k + 1:]}
+                yield dict(c, ops=ops[:k] + ops[k + 1:])
         for k, op in enumerate(ops):
             if op[0] == "u" and len(op[2]) > 2:
-                yield {"kind": "script", "ops": ops[:k] + [["u", op[1], op[2][:2]]] + ops[k + 1:]}
+                yield dict(c, ops=ops[:k] + [["u", op[1], op[2][:2]]] + ops[k + 1:])
             if op[0] == "n" and len(op[1]) > 1:
                 for a in op[1]:
-                    yield {"kind": "script", "ops": ops[:k] + [["n", [a], op[2]]] + ops[k + 1:]}
+                    yield dict(c, ops=ops[:k] + [["n", [a], op[2]]] + ops[k + 1:])
+        return
+    if c["kind"] == "overlap":
+        parts = c["parts"]
+        if len(parts) > 2:
+            for k in range(1, len(parts)):
+                yield dict(c, parts=parts[:k] + parts[k + 1:])
+        for k, p in enumerate(parts):
+            d = data_of(p["data"])
+            others = {len(data_of(q["data"])) for j, q in enumerate(parts) if j != k}
+            for m in (1, 2, len(d) // 2, BLOCK + 1):
+                if 0 < m < len(d) and m not in others:
+                    yield dict(c, parts=parts[:k] + [dict(p, data={"t": "hex", "v": d[:m].hex()} if m <= 4096 else
+                                                     {"t": "rep", "n": m, "h": d[:1].hex(), "p": d[1:2].hex() or "00", "e": d[-1:].hex()})]
+                               + parts[k + 1:])
+            for f in ("sched", "names", "cuts"):
+                if p.get(f):
+                    p2 = dict(p)
+                    del p2[f]
+                    yield dict(c, parts=parts[:k] + [p2] + parts[k + 1:])
+            if k > 0 and p["route"] != "fd":
+                yield dict(c, parts=parts[:k] + [{"data": p["data"], "route": "fd"}] + parts[k + 1:])
+        if c.get("every"):
+            yield dict(c, every=1)
         return
     data = data_of(c["data"])
     n = len(data)
@@ -946,7 +1371,7 @@ def coq_cases(cases):
         k = c["kind"]
         if count.get(k, 0) >= COQ_PER_KIND:
             continue
-        if k != "script" and len(data_of(c["data"])) > 300:
+        if k != "script" and case_bytes(c) > 300:
             continue
         rqs = requests(c)
         if sum(len(r) for r in rqs) > 4000:
